@@ -124,6 +124,9 @@ structure WalkEntry where
     file system; the model has no device ids, the mount points are a parameter) is neither sent nor
     entered (`filepath.SkipDir`); everything else is sent, and the callback returns nil, so the walk
     goes on after an entry with an error too.  A symbolic link is not a directory (`lstat`): a leaf.
+    (With `fs.dev != 0` the callback calls `info.IsDir()` before it looks at `err`: for an entry whose `lstat` failed,
+    `info` is nil and the real process dies — harness/cmd/repro_onefs_nilinfo.  The model sends the error entry in that case
+    too; in a valid static file system no `lstat` of a listed name fails: `walkFrom_walked`.)
     `none` = the model's fuel ran out (never: `walk_fuel_enough`). -/
 def walkFrom (fs : FS) (skip : RPath → Bool) : Nat → Bytes → RPath → Obj → Option (List WalkEntry)
   | 0, _, _, _ => none
@@ -243,19 +246,19 @@ def fileLiteral : List String :=
 /-- `mtime` of `readerFile` -/
 def noTime : List String := ["mtime:=entry.info.ModTime()", "if fs.opts.NoTime mtime=time.Unix(0,0)"]
 
-/-- xattrs of every entry (no condition), the link target of symbolic links, the content of regular files; all on
-    `entry.path`, the path the walk reported -/
+/-- xattrs of every entry (under no test of the entry: links and devices included), the link target under a test of
+    `ModeSymlink`, the content under `IsRegular()`; all on `entry.path`, the path the walk reported -/
 def calls : List String :=
   ["xattr.LList(entry.path) under []", "xattr.LGet(entry.path,key) under [range keys]",
-   "os.Readlink(entry.path) under [if entry.info.Mode()&os.ModeSymlink!=0]",
-   "os.Open(entry.path) under [if entry.info.Mode().IsRegular()]", "xa[key]=string(value)"]
+   "os.Readlink(entry.path) under [ModeSymlink]", "os.Open(entry.path) under [IsRegular()]", "xa[key]=string(value)"]
 
-/-- `walkFrom`: `filepath.Walk` from `fs.Root`; a directory on another device is skipped before anything is sent;
-    every other entry is sent, error or not, and the walk goes on -/
+/-- `walkFrom`: a sorted walk (`filepath.Walk` or `filepath.WalkDir`) from `fs.Root`; the callback returns `SkipDir`
+    only under `fs.dev != 0`, `IsDir()` and a device id other than the root's, and does so before the send; the send is
+    unconditional (every entry that is not skipped, error or not) and passes the callback's own path and error on;
+    otherwise the callback returns nil (the walk goes on) -/
 def walkCallback : List String :=
-  ["filepath.Walk(fs.Root)", "params:path,info,err", "if fs.dev!=0&&info.IsDir()",
-   "  st,ok:=info.Sys().(syscall.Stat_t)", "  if ok&&uint64(st.Dev)!=fs.dev", "    return filepath.SkipDir",
-   "send fs.entries<-walkEntry{path,info,err}", "return nil"]
+  ["returns:filepath.SkipDir,nil", "send fs.entries<-walkEntry{path,info,err} under []", "skip-before-send",
+   "skipdir-needs:fs.dev!=0,IsDir(),.Dev)!=fs.dev", "walk:fs.Root"]
 
 /-- `tar()` reads `f.Size` for regular files only (`readerFile` reports 0 for directories and device nodes) -/
 def sizeUses : List String := ["case f.IsRegular()"]
